@@ -663,10 +663,67 @@ impl C03 {
                         J::obj().set("input", show_input(input)).set("panic", J::s(p.short())).set("origin", J::s(origin)),
                     );
                 }
-                Ok(Err(_)) => ctx.count(&format!("rejected.{}", origin)),
+                Ok(Err(_)) => {
+                    ctx.count(&format!("rejected.{}", origin));
+                    self.no_state_leak(ctx, &mut xot, *ep, input, origin);
+                }
                 Ok(Ok(d)) => {
                     ctx.count(&format!("accepted.{}", origin));
-                    accepted_is_sound(ctx, &xot, d, *ep, input, origin);
+                    if accepted_is_sound(ctx, &xot, d, *ep, input, origin) {
+                        self.no_state_leak(ctx, &mut xot, *ep, input, origin);
+                    }
+                }
+            }
+        }
+    }
+
+    /// The next parse on the same Xot must not see anything of this input: a prefix the input declared is
+    /// unknown again, and no default namespace is in force.
+    fn no_state_leak(&self, ctx: &mut Ctx, xot: &mut Xot, ep: PEp, input: &Input, origin: &str) {
+        let text: String = match input {
+            Input::Text(t) => t.to_string(),
+            Input::Bytes(b) => String::from_utf8_lossy(&b[..b.len().min(4096)]).to_string(),
+        };
+        // one input in three (decided by its length: no generator state is consumed)
+        if text.len() % 3 != 0 {
+            return;
+        }
+        let mut prefixes: Vec<String> = Vec::new();
+        for (i, _) in text.match_indices("xmlns:") {
+            let p: String = text[i + 6..].chars().take_while(|c| c.is_ascii_alphanumeric()).collect();
+            if !p.is_empty() && p != "xml" && !prefixes.contains(&p) && prefixes.len() < 3 {
+                prefixes.push(p);
+            }
+        }
+        for p in &prefixes {
+            let probe = format!("<probe><{}:x/></probe>", p);
+            match guard(|| xot.parse(&probe)) {
+                Ok(Err(_)) => ctx.count("state_leak_probes"),
+                other => {
+                    ctx.violation(
+                        "a prefix declared by an earlier input is still bound in the next parse on the same Xot",
+                        format!("C03/{}/state-leak/prefix-of-earlier-input/{}", ep.name(), origin),
+                        J::obj().set("first_input", show_input(input)).set("second_input", J::s(probe.clone())).set("outcome", J::s(format!("{:?}", other.map(|r| r.map(|_| "accepted")).map_err(|p| p.short())))),
+                    );
+                    return;
+                }
+            }
+        }
+        if text.contains("xmlns=") {
+            let r = guard(|| {
+                let d = xot.parse("<probe/>")?;
+                let e = xot.document_element(d).map_err(|_| xot::ParseError::NoElementAtTopLevel(0))?;
+                let (l, u) = xot.name_ns_str(xot.node_name(e).unwrap());
+                Ok::<(String, String), xot::ParseError>((l.to_string(), u.to_string()))
+            });
+            match r {
+                Ok(Ok((l, u))) if l == "probe" && u.is_empty() => ctx.count("state_leak_probes"),
+                other => {
+                    ctx.violation(
+                        "a default namespace declared by an earlier input is in force in the next parse on the same Xot",
+                        format!("C03/{}/state-leak/default-namespace-of-earlier-input/{}", ep.name(), origin),
+                        J::obj().set("first_input", show_input(input)).set("second_input", J::s("<probe/>")).set("outcome", J::s(format!("{:?}", other.map(|r| r.map_err(|e| format!("{:?}", e))).map_err(|p| p.short())))),
+                    );
                 }
             }
         }
@@ -694,7 +751,7 @@ impl Monitor for C03 {
         ]
     }
     fn rule(&self) -> String {
-        "(1) arbitrary bytes / Unicode strings biased to XML-ish fragments, BOMs and encoding labels through all five parse entry points; (2) valid renderings of generated documents damaged by one of 32 well-formedness / namespace-constraint breakers at a random applicable position (must be rejected; document-only breakers must still be accepted by the fragment entry points' rules); (3) byte- and character-level mutations of valid renderings; (4) four stress sizes run alone (depth 5000, 2000 attributes, 1 MiB text, 10^5 siblings). Every call under catch_unwind and a 20 s watchdog; every accepted input must pass the structural walker, validate_well_formed_document, serialise, and reparse equal. Non-trivial = input of >= 8 bytes; distinct by hash of the input".into()
+        "(1) arbitrary bytes / Unicode strings biased to XML-ish fragments, BOMs and encoding labels through all five parse entry points; (2) valid renderings of generated documents damaged by one of 32 well-formedness / namespace-constraint breakers at a random applicable position (must be rejected; document-only breakers must still be accepted by the fragment entry points' rules); (3) byte- and character-level mutations of valid renderings; (3b) after one input in three, probes on the SAME Xot: a document using a prefix the input declared must be rejected again and <probe/> must be in no namespace (no parser state survives a call, accepted or rejected); (4) four stress sizes run alone (depth 5000, 2000 attributes, 1 MiB text, 10^5 siblings). Every call under catch_unwind and a 20 s watchdog; every accepted input must pass the structural walker, validate_well_formed_document, serialise, and reparse equal. Non-trivial = input of >= 8 bytes; distinct by hash of the input".into()
     }
     fn floors(&self, _tier: Tier) -> Vec<(&'static str, u64)> {
         vec![
@@ -704,6 +761,7 @@ impl Monitor for C03 {
             ("rejected.arbitrary", 1_000),
             ("accepted.arbitrary", 200),
             ("stress_inputs_returned", 4),
+            ("state_leak_probes", 5_000),
         ]
     }
     fn assumptions(&self) -> Vec<String> {
@@ -806,7 +864,7 @@ impl Monitor for C03 {
                                 J::obj().set("input", J::s(trunc(&br.text, 1200))).set("breaker", J::s(br.breaker)).set("entry_point", J::s(ep.name())).set("undamaged", J::s(trunc(&r.text, 600))),
                             );
                         }
-                        Ok(Err(_)) => {}
+                        Ok(Err(_)) => self.no_state_leak(ctx, &mut xot, ep, &Input::Text(&br.text), br.breaker),
                     }
                 }
                 if all_rejected {
